@@ -40,6 +40,16 @@ class TwoArgErr(Exception):
         self.code = code
 
 
+class FalsyErr(Exception):
+    """an exception whose truth value is false"""
+    def __init__(self, code):
+        super().__init__(code)
+        self.code = code
+
+    def __bool__(self):
+        return False
+
+
 def _boom(code):
     raise ChildErr(code)
 
@@ -103,6 +113,8 @@ def target(kind, arg, phase, ready):
         raise TwoArgErr(arg, 'x')
     if kind == 9:
         return BadLoad(arg)
+    if kind == 10:
+        raise FalsyErr(arg)
     # endings in which the child is gone without having delivered its outcome
     import threading
     if kind == 5:
@@ -121,6 +133,8 @@ def thread_target(kind, arg):
         raise ChildErr(arg)
     if kind == 8:
         raise TwoArgErr(arg, 'x')
+    if kind == 10:
+        raise FalsyErr(arg)
     if kind == 2:
         sys.exit()
     if kind == 3:
@@ -133,7 +147,7 @@ def classify(outcome):
     how, x = outcome
     if how == 'ret':
         return [1, 0, 0] if x is None else [1, 1, x]
-    if isinstance(x, (ChildErr, BlockingErr, TwoArgErr)):
+    if isinstance(x, (ChildErr, BlockingErr, TwoArgErr, FalsyErr)):
         return [2, 2, x.code]
     if isinstance(x, SystemExit):
         return [2, 3, x.code] if isinstance(x.code, int) else [2, 4, 0]
@@ -276,7 +290,7 @@ def gen_cases(rng, n):
         for sg in (15, 9, 10):
             for k, a in (endings if n >= 60 else [rng.choice(endings), rng.choice(endings)]):
                 cases.append({'kind': k, 'arg': a, 'phase': ph, 'sig': sg})
-    for k, a in ((5, 2), (6, 0), (7, 3), (7, 0), (7, 1), (8, 6), (9, 4)):
+    for k, a in ((5, 2), (6, 0), (7, 3), (7, 0), (7, 1), (8, 6), (9, 4), (10, 5)):
         cases.append({'kind': k, 'arg': a, 'phase': 'none', 'sig': 15})
     for sg in (15, 9):
         cases.append({'kind': 1, 'arg': 5, 'phase': 'between', 'sig': sg})
@@ -295,7 +309,7 @@ def gen_cases(rng, n):
             k, a = rng.choice(endings)
             cases.append({'kind': k, 'arg': a, 'phase': 'during', 'sig': sg, 'thread': False, 'gap': 0, 'jt': None,
                           'first': ['join', 'result', 'exception', 'join'][i % 4]})
-    for k, a in endings + [(8, 6)]:
+    for k, a in endings + [(8, 6), (10, 5)]:
         cases.append({'kind': k, 'arg': a, 'phase': 'none', 'sig': 15, 'thread': True, 'first': 'join'})
     # every ending without a kill and the kills at the discrete points of the protocol run in every tier; the rest is sampled
     base = [c for c in cases if c['phase'] in ('none', 'mid', 'between', 'after')]
